@@ -3,6 +3,7 @@ import LexgenModel.Proofs.MaxMunch
 import LexgenModel.Proofs.NextProtocol
 import LexgenModel.Proofs.CheckerSound
 import LexgenModel.Proofs.CompileLang
+import LexgenModel.Proofs.EndToEnd
 /-!
 # C01 — Longest match with first-rule priority, recovered by backtracking
 
@@ -88,5 +89,91 @@ def exampleCfg : Config Unit Unit Unit :=
   { dfa := exampleMachine, ctxs := [], entries := [], actions := fun _ => Action.skip, width := fun _ => 1, input := none }
 
 example : MachineOK exampleCfg := machineOK_of_checker exampleCfg 0 (by decide)
+
+/-! ## End to end, at the language level, for every well-formed definition -/
+
+/-- The final machine of the model of `lexer()` satisfies `MachineOK` for EVERY well-formed definition
+(`DefOK`: no rule matches the empty string, bracket ranges non-inverted, `$` only at the tail of rules
+and right contexts) — so the machine-level theorems above apply to every compiled definition, not only
+to machines that were run through the checker. -/
+theorem C01_compiled_machine_ok (items : LexerDef) (c : Compiled) (h : compileLexer items = .ok c) (hok : DefOK items)
+    (actions : Nat → Action σ τ ε) (width : Nat → Nat) (input : Option (List Nat)) :
+    MachineOK (c.config actions width input) :=
+  compileLexer_machineOK items c h hok actions width input
+
+/-- **C01 as stated, end to end.** For every well-formed definition the model compiles, every rule set,
+every remaining input and every lexer state at a lexeme start: the generated state code, started at the
+entry of that rule set, calls the action of a match of the DEFINITION (regex denotations `den`, right
+contexts as languages `CtxLang`) that is maximal among all its matches — the longest prefix some rule of
+the rule set matches with its right context satisfied, a match through `$` preferred at full length — and
+that action belongs to the FIRST rule (source order) matching that prefix; the lexer is advanced by
+exactly that prefix (rewinding if a longer attempt died). It reports an error only if NO rule of the
+rule set matches any prefix. -/
+theorem C01_language_level (items : LexerDef) (c : Compiled) (h : compileLexer items = .ok c) (hok : DefOK items)
+    (ctxAt : Nat → Regex) (hnum : CtxNumbering items ctxAt)
+    (name : String) (rs : List RuleOrBinding) (b : Bindings) (k : Nat) (hmem : (name, rs, b, k) ∈ allRuleSets items)
+    (actions : Nat → Action σ τ ε) (width : Nat → Nat) (input : Option (List Nat)) :
+    ∃ e rules, IsEntryOf items c name e ∧ coreRules rs b k = some rules ∧
+      ∀ (st : LState σ), st.last = none → st.done = false →
+        (∀ a st', scan (c.config actions width input) (dispatch (stateArms c.dfa)) e st.iter st = .act a st' →
+          ∃ n viaEoi, LangCand rules ctxAt st.iter n a viaEoi ∧
+            (∀ n' a' e', LangCand rules ctxAt st.iter n' a' e' → candLe n' e' n viaEoi) ∧
+            ∃ s', st' = { advanceBy width st n with last := none, done := viaEoi, state := s' }) ∧
+        (∀ loc st', scan (c.config actions width input) (dispatch (stateArms c.dfa)) e st.iter st = .err loc st' →
+          (∀ n a e', ¬ LangCand rules ctxAt st.iter n a e') ∧ loc = st.curStart) :=
+  compile_maximal_munch items c h hok ctxAt hnum name rs b k hmem actions width input
+
+/-! non-vacuity: `'a' 'b'+ = 0, 'a' > 'c' = 1` compiles in the model, is well-formed, and its right
+contexts are numbered by the constant function -/
+def exDef : LexerDef := [ .rb (.rule { re := .cat (.chr 97) (.plus (.chr 98)), ctx := none, rhs := 0 }),
+    .rb (.rule { re := .chr 97, ctx := some (.chr 99), rhs := 1 }) ]
+theorem exDef_compiles : ∃ c, compileLexer exDef = .ok c := by
+  have : (compileLexer exDef).toOption.isSome = true := by
+    rw [Static.compileLexer_eq]
+    simp only [exDef, List.foldlM, Static.lexStep, compileSingleRule, newRightCtx, inlineVars, bind, Except.bind, pure, Except.pure]
+    decide
+  cases h : compileLexer exDef with
+  | error e => rw [h] at this; cases this
+  | ok c => exact ⟨c, rfl⟩
+
+theorem exDef_ok : DefOK exDef := by
+  have hall : allRuleSets exDef = [("", topRules exDef, [], 0)] := allRuleSets_unnamed (by decide)
+  constructor
+  · intro name rs b k hmem rules hc r hr
+    rw [hall] at hmem
+    simp only [List.mem_singleton, Prod.mk.injEq] at hmem
+    obtain ⟨rfl, rfl, rfl, rfl⟩ := hmem
+    simp only [exDef, topRules, List.filterMap, coreRules, inlineVars, bind, Except.bind, pure, Except.pure, List.length_nil,
+      Option.map_some, Option.some.injEq] at hc
+    subst hc
+    simp only [List.mem_cons, List.not_mem_nil, or_false] at hr
+    rcases hr with rfl | rfl
+    · refine ⟨by simp [regexPiecesOK], by simp [tailEoi, eoiFree], ?_⟩
+      simp only [den]
+      rintro ⟨u, v, huv, hu, _⟩
+      subst hu
+      cases huv
+    · refine ⟨by simp [regexPiecesOK], by simp [tailEoi], ?_⟩
+      simp [den]
+  · intro name rs b k hmem cres hc c hcm
+    rw [hall] at hmem
+    simp only [List.mem_singleton, Prod.mk.injEq] at hmem
+    obtain ⟨rfl, rfl, rfl, rfl⟩ := hmem
+    simp only [exDef, topRules, List.filterMap, coreCtxs, inlineVars, List.length_nil, Option.map_some, Option.some.injEq] at hc
+    subst hc
+    simp only [List.mem_cons, List.not_mem_nil, or_false] at hcm
+    subst hcm
+    exact ⟨by simp [regexPiecesOK], by simp [tailEoi]⟩
+
+example : CtxNumbering exDef (fun _ => .chr 99) := by
+  intro name rs b k hmem cres hc j hj
+  rw [allRuleSets_unnamed (by decide)] at hmem
+  simp only [List.mem_singleton, Prod.mk.injEq] at hmem
+  obtain ⟨rfl, rfl, rfl, rfl⟩ := hmem
+  simp only [exDef, topRules, List.filterMap, coreCtxs, inlineVars, List.length_nil, Option.map_some, Option.some.injEq] at hc
+  subst hc
+  have : j = 0 := by simp only [List.length_cons, List.length_nil] at hj; omega
+  subst this
+  rfl
 
 end Lexgen
